@@ -35,12 +35,12 @@ def gen_query(rnd, f):
     return q
 
 
-def run_impl(f, q, metric_idx=None):
+def run_impl(f, q, metric_idx=None, extra_filters=(), **kw):
     """joint query (metric_idx None) or the query with only metric number metric_idx; returns {colname: ...} rows as dicts"""
     dbm, mbm, drefs, mrefs = c02.field_names(q)
     L = jg.real_layer(f, mbm, dbm)
     mr = mrefs if metric_idx is None else [mrefs[metric_idx]]
-    sql = L.compile(metrics=mr, dimensions=drefs, filters=[jg.jsql(e, m + ".") for m, e in q["filters"]])
+    sql = L.compile(metrics=mr, dimensions=drefs, filters=[jg.jsql(e, m + ".") for m, e in q["filters"]] + list(extra_filters), **kw)
     cur = L.conn.execute(sql)
     cols = [d[0] for d in cur.description]
     return cols, jg.canon_times(cur.fetchall()), sql
@@ -73,6 +73,60 @@ def values_equal(a, b):
     return a == b
 
 
+def slice_checks(c, f, q, rnd, stats):
+    """ORDER BY / LIMIT / OFFSET and filters over a metric's VALUE on a joint query whose plain result already agrees with the
+    single-metric results: the sliced result must be the slice (and the value-filtered result the filtered rows) of that result.
+    Expected rows are derived from the implementation's own unsliced, unfiltered joint result."""
+    import decimal
+    dbm, mbm, drefs, mrefs = c02.field_names(q)
+    if not drefs:
+        return
+    try:
+        cols, full, _ = run_impl(f, q, order_by=drefs)
+    except Exception:
+        return
+    if len(full) < 2:
+        return
+    nd = len(drefs)
+    key = lambda r: tuple(r[:nd])
+    if len({key(r) for r in full}) != len(full):
+        return
+    variants = []
+    k = rnd.randint(1, max(1, len(full) - 1))
+    o = rnd.choice([0, 0, 1, 2])
+    variants.append(("limit", dict(order_by=drefs, limit=k), (), full[:k]))
+    variants.append(("limit+offset", dict(order_by=drefs, limit=k, offset=o), (), full[o:o + k]))
+    # a filter over one metric's value (applied after aggregation): keep the groups whose value passes
+    j = rnd.randrange(len(mrefs))
+    mname = "m%d" % j
+    vals = sorted(float(r[cols.index(mname)]) for r in full if r[cols.index(mname)] is not None)
+    if vals:
+        thr = vals[len(vals) // 2]
+        thr_txt = repr(int(thr)) if float(thr).is_integer() else repr(thr)
+        op = rnd.choice([">=", "<", ">"])
+        import operator
+        pyop = {">=": operator.ge, "<": operator.lt, ">": operator.gt}[op]
+        keep = [r for r in full if r[cols.index(mname)] is not None and pyop(float(r[cols.index(mname)]), thr)]
+        flt = "%s %s %s" % (mrefs[j], op, thr_txt)
+        variants.append(("value filter", dict(order_by=drefs), (flt,), keep))
+        if keep:
+            kk = rnd.randint(1, len(keep))
+            variants.append(("value filter+limit", dict(order_by=drefs, limit=kk), (flt,), keep[:kk]))
+    for what, kw, extra, want in variants:
+        stats["slices"] += 1
+        try:
+            cols2, got, sql = run_impl(f, q, extra_filters=extra, **kw)
+            err = None
+        except Exception as e:
+            got, sql, err = [], "", e
+        same = err is None and cols2 == cols and len(got) == len(want) and all(
+            len(a) == len(b) and all(values_equal(x, y) for x, y in zip(a, b)) for a, b in zip(got, want))
+        if not same:
+            c.violation("joint query with %s is not the corresponding part of the joint result%s" % (what, (" (%s)" % str(err)[:150]) if err else ""),
+                        {"kind": "slice", "forest": f, "query": q, "variant": what, "kw": kw, "extra_filters": list(extra),
+                         "got": [list(map(str, r)) for r in got[:10]], "want": [list(map(str, r)) for r in want[:10]], "sql": sql[-1200:]})
+
+
 def run(c):
     c.trusted += ["modelled, not verified: Model/MultiFact.v (sub-query per metric model, FULL OUTER JOIN chain on the first sub-query, COALESCE, filter partitioning) hand-written; sub-queries reuse Model/Plan.v + Model/Join.v",
                   "oracle = the implementation's own single-metric results combined by a harness-side full outer join (as the property prescribes)"]
@@ -95,7 +149,7 @@ def run(c):
             outs = lib.coq_eval("c03_cases", PREAMBLE, ["gomf " + c02.coq_term(f, q)[3:] for f, q in cases], chunk=30)
         except RuntimeError as e:
             c.obligation("model evaluation", False, "correspondence", str(e)[-1500:])
-    fid_bad, stats = [], {"multifact": 0, "single_path": 0, "k1": 0, "k2": 0, "k4": 0, "joint_errors_allowed": 0, "compared": 0}
+    fid_bad, stats = [], {"multifact": 0, "single_path": 0, "k1": 0, "k2": 0, "k4": 0, "joint_errors_allowed": 0, "compared": 0, "slices": 0}
     nontrivial = 0
     for i, (f, q) in enumerate(cases):
         out = sg.unquote(outs[i]) if outs is not None else None
@@ -162,6 +216,8 @@ def run(c):
         if ok:
             if len(expected) > 1:
                 nontrivial += 1
+            if is_mf and not q["filters"]:
+                slice_checks(c, f, q, c.rng, stats)
         elif kinds and all(c.is_open(k) for k in kinds):
             for k in kinds:
                 c.known(k)
@@ -173,7 +229,8 @@ def run(c):
             c.samples.append({"models": [(m["name"], m["rels"], len(m["rows"])) for m in f["models"]], "query": q, "joint_rows": [list(map(str, r)) for r in rows[:4]]})
     if outs is not None:
         c.obligation("correspondence: Model/MultiFact == joint compile()+DuckDB on the %d multi-fact cases" % stats["multifact"], not fid_bad, "correspondence", json.dumps(fid_bad[:1], default=str)[:1800])
-    c.obligation("oracle: joint result == full outer join of the implementation's single-metric results (%d cases)" % stats["compared"], not c.violations, "correspondence")
+    c.obligation("oracle: joint result == full outer join of the implementation's single-metric results (%d cases); ORDER BY/LIMIT/OFFSET and metric-value filters on a joint query "
+                 "return the corresponding part of it (%d sliced / filtered queries)" % (stats["compared"], stats["slices"]), not c.violations, "correspondence")
     c.coverage.update({"evaluations": len(cases), "distinct_nontrivial": nontrivial,
                        "rule": "forests of 2-4 models x queries with metrics of >= 2 models, 0-2 dimensions on any model, filters on metric and non-metric models in 40% of the cases; "
                                "non-trivial = joint result agrees with the single-metric results on more than one group", "traces_validated_against_impl": stats["compared"], "distribution": stats, "exhaustive": False})
@@ -186,6 +243,12 @@ def replay(path):
     q["dims"] = [(m, c02.sg_t(e)) for m, e in q["dims"]]
     q["mets"] = [(m, a, c02.sg_t(e) if e else None, [c02.sg_t(x) for x in fl]) for m, a, e, fl in q["mets"]]
     q["filters"] = [(m, c02.sg_t(e)) for m, e in q["filters"]]
+    if r.get("kind") == "slice":
+        cols, got, sql = run_impl(f, q, extra_filters=r["extra_filters"], **r["kw"])
+        print(sql)
+        print("got ", [list(map(str, x)) for x in got[:10]])
+        print("want", r["want"])
+        return 0 if [list(map(str, x)) for x in got[:10]] == r["want"] else 1
     try:
         cols, rows, sql = run_impl(f, q)
         print(sql)
